@@ -15,6 +15,16 @@ COMMON_ASSUMPTIONS = [
 VM = {"name": "exec", "quick": 1500, "thorough": 40000}
 
 PROPS = {
+    "C09": {
+        "modules": ["C09", "C09Seal"],
+        "streams": [{"name": "hostile", "quick": 70, "thorough": 1200}, {"name": "apply", "quick": 25, "thorough": 400},
+                    {"name": "seal", "quick": 25, "thorough": 400}, {"name": "chain", "quick": 15, "thorough": 250},
+                    {"name": "exec", "quick": 600, "thorough": 20000}, {"name": "feemult", "quick": 100, "thorough": 1500}],
+        "projection": "panics",
+        "oracles": ["panics"],
+        "assumptions": ["C09_apply_total / C09_seal_total assume the reachable-state invariants bundled in ApplyPre / SealTotalPre (count invariant, fresh coin ids, coin heights, supply bounds, sane pools, positive recorded speeds, history below the height) and exclude by explicit hypothesis the dependency-crate findings F9 (melpow panics), F19 (weight sum overflow) and the 2^74-work reward overflow",
+                        "native stack overflow (F17), allocation failure and catvec length overflow (F13) are runtime behaviour outside the model; each generated case runs under catch_unwind, the witnesses in their own process"],
+    },
     "C10": {
         "modules": ["C10"],
         "streams": [{"name": "exec", "quick": 2500, "thorough": 60000}, {"name": "codec", "quick": 200, "thorough": 2000}],
